@@ -49,7 +49,7 @@ fn protocol_campaign(shard: &Shard, prop: &'static str, props: u32, only_all_imp
             let case = random_case(rng, only_all_impacted, false);
             with_family!(case.family, drive_any, &case, prop, props);
         } else {
-            let p = Profile { only_all_impacted, with_dominance: true, small: rng.chance(1, 3), max_width: 5, ..Default::default() };
+            let p = Profile { only_all_impacted, with_dominance: true, small: rng.chance(1, 3), max_width: 5, medium_share: 1, ..Default::default() };
             let mut spec = random_spec(rng, &p);
             spec.cfg.monitors = props;
             // the livelock of finding H2 is not this property's business: keep the run short
